@@ -81,17 +81,7 @@ def alphabet():
                           "clk_div": 0x81}, 1028),
         ("mc_dict", "mc_dict", {"boot_delay": 33, "led0": 0xC0000001}, 1028),
         ("dict+kw", "dict+kw", {"link_en": 0x15, "p2p_sql": 9}, 1020),
-        # a preset passed as the dictionary and refined by keywords of the
-        # same call: the explicit keyword is the more specific statement of
-        # this call's options (DESIGN section 4, C20)
-        ("dict&kw", "dict&kw", {"dict": {"led0": 1, "hw_ver": 3,
-                                         "cpu_clk": 140},
-                                "kw": {"led0": 0x502, "cpu_clk": 160}}, 1028),
         ("mc", "mc", {"hw_ver": 2, "num_buf": 3}, 1028),
-        # a struct file of the caller's (other defaults), directly and
-        # through the controller
-        ("custom", "custom", {"led1": 5, "cpu_clk": 190}, 1028),
-        ("mc_custom", "mc_custom", {"mem_clk": 120}, 1028),
         ("bundled", "kwargs", {"hw_ver": 4}, "bundled"),
         ("mc_wh", "mc_wh", {"hw_ver": 5, "led0": 1}, 1028),
         # overrides that EQUAL the struct file's default, followed by ones
@@ -102,6 +92,17 @@ def alphabet():
                                   "hw_ver": 6}, 1028),
         ("preset+", "kwargs", {"led0": 1, "hw_ver": 5, "cpu_clk": 150,
                                "num_buf": 7, "mem_clk": 77}, 1028),
+        # (new entries go at the end: committed replays index this list)
+        # a preset passed as the dictionary and refined by keywords of the
+        # same call: the explicit keyword is the more specific statement of
+        # this call's options (DESIGN section 4, C20)
+        ("dict&kw", "dict&kw", {"dict": {"led0": 1, "hw_ver": 3,
+                                         "cpu_clk": 140},
+                                "kw": {"led0": 0x502, "cpu_clk": 160}}, 1028),
+        # a struct file of the caller's (other defaults), directly and
+        # through the controller
+        ("custom", "custom", {"led1": 5, "cpu_clk": 190}, 1028),
+        ("mc_custom", "mc_custom", {"mem_clk": 120}, 1028),
     ]
 
 
